@@ -285,6 +285,10 @@ func supportedBody(m []kv) []byte {
 }
 
 func openFlightConn(codec string) (*flightConn, error) {
+	return openFlightConnWith(compressor(codec))
+}
+
+func openFlightConnWith(comp gocql.Compressor) (*flightConn, error) {
 	fc := &flightConn{reqs: make(chan srvFrame, 16), done: make(chan struct{})}
 	fc.cli, fc.srv = net.Pipe()
 	go func() {
@@ -306,7 +310,7 @@ func openFlightConn(codec string) (*flightConn, error) {
 			}
 		}
 	}()
-	conn, err := gocql.VerifC18dDial(fc.cli, compressor(codec), 4, 10*time.Minute)
+	conn, err := gocql.VerifC18dDial(fc.cli, comp, 4, 10*time.Minute)
 	if err != nil {
 		fc.close()
 		return nil, err
